@@ -259,7 +259,13 @@ static void run_history(Solver& s, OpT& op, OpLog& log, const Case& c, const Ref
         if (k.kind == 'I' || k.kind == 'J') {
             req += (k.kind == 'I' ? std::string(" | I") + vec_bits(k.v0) : std::string(" | J"));
             try { log.reset(); if (k.kind == 'I') s.init(k.v0.data()); else s.init(); inited = true; resp += " | ok nmatop=" + str((long) s.num_operations()); out.count("oracle_init"); }
-            catch (const std::invalid_argument&) { resp += " | throw std::invalid_argument"; out.count("init_throw"); }
+            catch (const std::invalid_argument&) { resp += " | throw std::invalid_argument"; out.count("init_throw"); continue; }
+            // whatever the accessors hand back between init() and the next compute() is judged like any other returned pair (the
+            // unchanged library hands back nothing here: init() clears the Ritz data of an earlier run)
+            {   CVec e0 = s.eigenvalues(); CMat X0 = s.eigenvectors(); out.count("oracle_after_init");
+                if (e0.size() > 0 || X0.cols() > 0) { out.count("pairs_handed_back_after_init");
+                    OracleCtx o{&out, &c, &ref, &Op, opnorm, ci, SpectraVerifAccess::vloss(SpectraVerifAccess::fac(s)), 0};
+                    check_pairs(o, e0, X0, 1e-3, (long) e0.size()); } }
             continue;
         }
         if (!inited) continue;
